@@ -66,6 +66,7 @@ fn run_scenario(out: &mut TraceOut, family: &str, seed: u64, idx: u64, heavy: bo
         }
         "explore" => cursor::scn_explore(out, &mut r, idx, heavy),
         "chunks" => sorter::scn_chunks(out, &mut r, idx, heavy),
+        "wprefix" => sched::scn_wprefix(out, &mut r, idx, heavy),
         "format" => layout::scn_format(out, &mut r, idx, heavy),
         "cut" => layout::scn_cut(out, &mut r, idx, heavy),
         "unsorted" => layout::scn_unsorted(out, &mut r, idx, heavy),
